@@ -69,8 +69,8 @@ PLAN = {
                 k_quick=['k_lossy_chunk_3', 'k_width_table', 'k_str_insert_mid', 'k_str_truncate_split', 'k_str_drain', 'k_str_insert_non_boundary'],
                 k_thorough=['k_lossy_chunk_2', 'k_lossy_chunk_4', 'k_str_insert_ends', 'k_str_remove', 'k_str_lossy_truncated', 'k_str_truncate_non_boundary',
                             'k_str_split_off_non_boundary', 'k_str_remove_past_end'],
-                technique='Verus: String byte surgery (push, pop, truncate, remove, insert, insert_str, split_off, drain, from_str_in ...) on top of the verified Vec<u8> functions, UTF-8 facts as listed trusted axioms; Kani: forked lossy decoder on all inputs of length <= 4',
-                explanation='PARTIAL. Proof (all texts, indices, chars): 15 real String functions are verified to compute exactly the byte sequence std documents, to perform their char-boundary checks so that std\'s panics are reproduced (and no others), to stay inside the buffer and to leave valid UTF-8 behind; the Vec<u8> operations they call are the real Vec functions re-verified in the same unit. "valid UTF-8", "char boundary" and "encoding of c" are uninterpreted; the trusted facts relating them (concatenation/splitting at boundaries preserves validity; std\'s chars()/is_char_boundary/encode_utf8 behave as documented) are listed as axioms in the evidence. replace_range\'s boundary assertions and retain (incl. its panic guard) are proved in their own units. BOUNDED / complete-for-small-inputs (Kani): the forked lossy decoder\'s first chunk against the Unicode definition on ALL byte strings of length <= 4, the 256-entry width table (complete), single operations on the text "aé€". Not decided: from_utf16_in, from_utf8_lossy_in as a whole loop.'),
+                technique='Verus: String byte surgery (push, pop, truncate, remove, insert, insert_str, split_off, drain, from_str_in ...) on top of the verified Vec<u8> functions, over a DEFINED notion of valid UTF-8 / char boundary / encoding whose algebra is proved (no axioms); Kani: forked lossy decoder on all inputs of length <= 4',
+                explanation='PARTIAL. Proof (all texts, indices, chars): 15 real String functions are verified to compute exactly the byte sequence std documents, to perform their char-boundary checks so that std\'s panics are reproduced (and no others), to stay inside the buffer and to leave valid UTF-8 behind; the Vec<u8> operations they call are the real Vec functions re-verified in the same unit. "valid UTF-8" (Unicode table 3-7), "char boundary" (std\'s definition) and "encoding of c" (RFC 3629) are DEFINED in the unit and the facts the operations need (concatenation and splitting at a boundary preserve validity; every encoding is one well-formed sequence) are PROVED there by induction / bit-vector reasoning; only the contracts of std\'s own chars()/is_char_boundary/encode_utf8/len_utf8 are trusted. replace_range\'s boundary assertions and retain (incl. its panic guard) are proved in their own units. BOUNDED / complete-for-small-inputs (Kani): the forked lossy decoder\'s first chunk against the Unicode definition on ALL byte strings of length <= 4, the 256-entry width table (complete), single operations on the text "aé€". Not decided: from_utf16_in, from_utf8_lossy_in as a whole loop.'),
     'C15': dict(v=['drainfilter', 'intoiter', 'rawvec', 'dedup', 'vecops', 'boxops'], level='proof',
                 k_quick=['k_drop_vec_ops', 'k_drop_iters', 'k_drop_forgotten_iterators', 'k_drop_no_destructors', 'k_drop_dedup', 'k_drop_zst'],
                 k_thorough=['k_drop_dedup_retain', 'k_box_drop_once', 'k_box_slices_arrays'],
